@@ -545,6 +545,14 @@ Definition sp_lazy_down (c : cfg) (st : astate) (nx : N) (v : nat) (idx : N) : o
       else Some (panic_res PIndex [] st nx)
   end.
 
+(** k fresh values written into the spare capacity (spare_bytes_mut / spare_capacity_mut), then set_len: they are the
+    new tail.  That they fit below the capacity is the caller's obligation ([admissible]). *)
+Definition sp_spare_write (c : cfg) (st : astate) (nx : N) (v : nat) (k : N) : option sres :=
+  match get_a v st with
+  | None => None
+  | Some a => Some (ok_res [] [] (set_a v (Some (with_xs a (a_xs a ++ next_ids c nx (N.to_nat k)))) st) (nx + k))
+  end.
+
 Definition spec_step (c : cfg) (st : astate) (nx : N) (o : op) : option sres :=
   match o with
   | ONew dst bk => sp_new c st nx dst bk
@@ -577,6 +585,7 @@ Definition spec_step (c : cfg) (st : astate) (nx : N) (o : op) : option sres :=
   | OWrite _ v idx => sp_write c st nx v idx
   | OSwap pr v1 i v2 j => if pr =? 0 then sp_swap c st nx v1 i v2 j else None
   | OLazyDown _ v idx => sp_lazy_down c st nx v idx
+  | OSpareWrite _ v k => sp_spare_write c st nx v k
   | ODownWrong v k idx =>
       (* a removal handle whose downcast to another type gives None: the element is destroyed as by a
          dropped handle; reported: type id ok, size, three refused downcasts *)
